@@ -80,6 +80,22 @@ Proof.
 Qed.
 
 (* ------------------------------------------------------------------------- phase 1: what merge allocates *)
+Lemma closed_in_mono : forall b d d', incl d d' -> closed_in d b -> closed_in d' b.
+Proof.
+  destruct b as [t|b1 d1 b2 d2|tid]; intros d d' H Hc; cbn [closed_in] in *; [|exact Hc|exact Hc].
+  eapply incl_tran; eassumption.
+Qed.
+
+(* a closed body denotes the same definition under any larger scope *)
+Lemma abs_body_closed : forall b d d', incl d d' -> closed_in d b -> sb_sim (abs_body d' b) (abs_body d b).
+Proof.
+  destruct b as [t|b1 d1 b2 d2|tid]; intros d d' H Hc; cbn [abs_body closed_in] in *.
+  - constructor. intros x Hx. apply Hc in Hx. pose proof (H x Hx) as Hx'.
+    apply mem_In in Hx. apply mem_In in Hx'. rewrite Hx, Hx'. reflexivity.
+  - apply sb_sim_refl.
+  - apply sb_sim_refl.
+Qed.
+
 (* ------------------------------------------------------------------------- fresh thunk ids
    Thunks are allocated one after the other.  Of the thunk ids that a piece of the new record
    mentions, those that are fresh (>= n0) form an increasing sequence inside the interval of ids
@@ -147,12 +163,22 @@ Qed.
 (* ------------------------------------------------------------------------- phase 1: what merge allocates *)
 Definition tids (r : irec) : list nat := flat_map (fun kf => ftids (snd kf)) r.
 
+(* everything below is proved for both modes of the invariant (known / unknown dependencies) *)
+Section Mode.
+Variable u : bool.
+Local Notation thunk_ok := (thunk_ok u).
+Local Notation tid_ok := (tid_ok u).
+Local Notation fld_ok := (fld_ok u).
+Local Notation coherent := (coherent u).
+Local Notation faithful := (faithful u).
+
 (* a thunk of the record being built, before it is patched: either a standard thunk, or a fresh
    revertible thunk without cached value *)
 Definition pre_thunk (n0 : nat) (keys : list N) (tid : nat) (th : thunk) : Prop :=
   match th with
-  | Std b => wf_body [] b
-  | Rev o (Some d) None => n0 <= tid /\ wf_body d o /\ incl d keys
+  | Std b => wf_body [] b /\ (u = true -> closed_in [] b)
+  | Rev o (Some d) None => u = false /\ n0 <= tid /\ wf_body d o /\ incl d keys
+  | Rev o None None => u = true /\ n0 <= tid /\ wf_body keys o /\ closed_in keys o
   | _ => False
   end.
 
@@ -161,7 +187,7 @@ Definition pre_tid (n0 : nat) (keys : list N) (ths : list thunk) (tid : nat) : P
 
 (* thunk [tid] of the record being built denotes the definition [sb] *)
 Definition slot_ok (n0 : nat) (keys : list N) (ths : list thunk) (tid : nat) (sb : sbody) : Prop :=
-  exists th, nth_error ths tid = Some th /\ pre_thunk n0 keys tid th /\ sb_sim (abs_thunk th) sb.
+  exists th, nth_error ths tid = Some th /\ pre_thunk n0 keys tid th /\ sb_sim (abs_thunk keys th) sb.
 
 Definition ctrs_ok (n0 : nat) (keys : list N) (ths : list thunk)
   (cs : list (ckind * nat)) (tg : list (ckind * sbody)) : Prop :=
@@ -233,7 +259,7 @@ Lemma revert_tid_ok : forall ths0 e rid kin keys tid ths' tid',
   tid_ok ths0 rid kin tid -> incl kin keys ->
   revert_tid RevFresh (ths0 ++ e) tid = (ths', tid') ->
   exists e', ths' = (ths0 ++ e) ++ e' /\
-             slot_ok (length ths0) keys ths' tid' (abs_tid ths0 tid) /\
+             slot_ok (length ths0) keys ths' tid' (abs_tid ths0 kin tid) /\
              fresh_seq (length ths0) (length (ths0 ++ e)) (length ths') [tid'].
 Proof.
   intros ths0 e rid kin keys tid ths' tid' (th & Hth & Htok) Hinc Hrev. unfold revert_tid in Hrev.
@@ -245,9 +271,15 @@ Proof.
     + exists (Std b). split; [apply nth_error_app_l; exact Hth|]. split; [exact Htok | apply sb_sim_refl].
     + apply fresh_seq_old. exact Hlt.
   - (* revertible thunk: a new one without cached value *)
-    destruct Htok as (-> & Hwf & Hd). inversion Hrev; subst. exists [Rev o (Some d) None]. split; [reflexivity|]. split.
+    destruct Htok as (Hu & -> & Hwf & Hd). inversion Hrev; subst. exists [Rev o (Some d) None]. split; [reflexivity|]. split.
     + exists (Rev o (Some d) None). rewrite nth_error_app2 by lia. rewrite Nat.sub_diag. split; [reflexivity|].
-      split; [|apply sb_sim_refl]. cbn [pre_thunk]. rewrite app_length. repeat split; [lia | exact Hwf | eapply incl_tran; eassumption].
+      split; [|apply sb_sim_refl]. cbn [pre_thunk]. rewrite app_length. repeat split; [exact Hu | lia | exact Hwf | eapply incl_tran; eassumption].
+    + apply fresh_seq_one. rewrite !app_length. cbn [length]. lia.
+  - (* the same with unknown dependencies: the scope becomes the field names of the new record *)
+    destruct Htok as (Hu & -> & Hwf & Hcl). inversion Hrev; subst. exists [Rev o None None]. split; [reflexivity|]. split.
+    + exists (Rev o None None). rewrite nth_error_app2 by lia. rewrite Nat.sub_diag. split; [reflexivity|].
+      split; [|cbn [abs_thunk]; apply abs_body_closed; assumption].
+      cbn [pre_thunk]. rewrite app_length. repeat split; [exact Hu | lia | eapply wf_body_mono; eassumption | eapply closed_in_mono; eassumption].
     + apply fresh_seq_one. rewrite !app_length. cbn [length]. lia.
 Qed.
 
@@ -255,7 +287,7 @@ Lemma revert_ctrs_ok : forall cs ths0 e rid kin keys ths' cs',
   (forall kc, In kc cs -> tid_ok ths0 rid kin (snd kc)) -> incl kin keys ->
   revert_ctrs RevFresh (ths0 ++ e) cs = (ths', cs') ->
   exists e', ths' = (ths0 ++ e) ++ e' /\
-             ctrs_ok (length ths0) keys ths' cs' (map (fun kc => (fst kc, abs_tid ths0 (snd kc))) cs) /\
+             ctrs_ok (length ths0) keys ths' cs' (map (fun kc => (fst kc, abs_tid ths0 kin (snd kc))) cs) /\
              fresh_seq (length ths0) (length (ths0 ++ e)) (length ths') (map snd cs').
 Proof.
   induction cs as [|[k tid] cs IH]; intros ths0 e rid kin keys ths' cs' Hok Hinc Hrev; cbn [revert_ctrs] in Hrev.
@@ -276,7 +308,7 @@ Lemma revert_val_ok : forall ths0 e rid kin keys v ths' v',
   (forall tid, v = Some tid -> tid_ok ths0 rid kin tid) -> incl kin keys ->
   revert_val RevFresh (ths0 ++ e) v = (ths', v') ->
   exists e', ths' = (ths0 ++ e) ++ e' /\
-             val_ok (length ths0) keys ths' v' (option_map (abs_tid ths0) v) /\
+             val_ok (length ths0) keys ths' v' (option_map (abs_tid ths0 kin) v) /\
              fresh_seq (length ths0) (length (ths0 ++ e)) (length ths') (match v' with Some t => [t] | None => [] end).
 Proof.
   intros ths0 e rid kin keys [tid|] ths' v' Hok Hinc Hrev; cbn [revert_val] in Hrev.
@@ -298,7 +330,7 @@ Lemma revert_fld_ok : forall ths0 e rid kin keys f ths' f',
   fld_ok ths0 rid kin f -> incl kin keys ->
   revert_fld RevFresh (ths0 ++ e) f = (ths', f') ->
   exists e', ths' = (ths0 ++ e) ++ e' /\
-             out_ok (length ths0) keys ths' (abs_fld ths0 f) f' /\
+             out_ok (length ths0) keys ths' (abs_fld ths0 kin f) f' /\
              fresh_seq (length ths0) (length (ths0 ++ e)) (length ths') (ftids f').
 Proof.
   intros ths0 e rid kin keys f ths' f' Hok Hinc Hrev. unfold revert_fld in Hrev.
@@ -386,35 +418,56 @@ Proof.
 Qed.
 
 (* ---- saturate and merge_fields *)
-Lemma mk_thunk_pre : forall n0 keys tid b d,
-  n0 <= tid -> wf_body d b -> incl d keys -> pre_thunk n0 keys tid (mk_thunk b (Some d)).
+(* the scope of a thunk: its dependencies, or all the field names when they are unknown *)
+Definition fil (keys : list N) (deps : option (list N)) : list N :=
+  match deps with Some d => d | None => keys end.
+
+Lemma mk_thunk_pre : forall n0 keys tid b deps,
+  n0 <= tid -> wf_body (fil keys deps) b ->
+  match deps with
+  | Some d => incl d keys /\ (d = [] \/ u = false) /\ (u = true -> closed_in [] b)
+  | None => u = true /\ closed_in keys b
+  end ->
+  pre_thunk n0 keys tid (mk_thunk b deps).
 Proof.
-  intros n0 keys tid b d Hge Hwf Hinc. unfold mk_thunk. destruct d as [|x d]; cbn [pre_thunk]; [exact Hwf|].
-  repeat split; assumption.
+  intros n0 keys tid b deps Hge Hwf H. unfold mk_thunk. destruct deps as [[|x d]|]; cbn [pre_thunk fil] in *.
+  - destruct H as (_ & _ & Hc). split; assumption.
+  - destruct H as (Hi & [E|Hu] & _); [discriminate|]. repeat split; assumption.
+  - destruct H as (Hu & Hc). repeat split; assumption.
 Qed.
 
-Lemma mk_thunk_abs : forall b d, abs_thunk (mk_thunk b (Some d)) = abs_body d b.
-Proof. intros b d. unfold mk_thunk. destruct d; reflexivity. Qed.
+Lemma mk_thunk_abs : forall keys b deps, abs_thunk keys (mk_thunk b deps) = abs_body (fil keys deps) b.
+Proof. intros keys b deps. unfold mk_thunk. destruct deps as [[|x d]|]; reflexivity. Qed.
 
 Lemma saturate_ok : forall ths0 e rid kin names tid th,
   nth_error ths0 tid = Some th -> thunk_ok rid kin th -> incl kin names ->
-  exists b d' d, saturate (ths0 ++ e) names tid = (b, d') /\ deps_of (ths0 ++ e) tid = Some d /\
-                 incl d kin /\ incl d' d /\ wf_body d' b /\ sb_sim (abs_body d' b) (abs_thunk th).
+  exists b d' dop, saturate (ths0 ++ e) names tid = (b, d') /\ deps_of (ths0 ++ e) tid = dop /\
+                   incl d' (fil names dop) /\ wf_body d' b /\ sb_sim (abs_body d' b) (abs_thunk kin th) /\
+                   match dop with
+                   | Some d => incl d kin /\ (d = [] \/ u = false) /\ (u = true -> closed_in d' b)
+                   | None => u = true /\ closed_in d' b
+                   end.
 Proof.
   intros ths0 e rid kin names tid th Hth Hok Hinc. unfold saturate, deps_of.
   rewrite (nth_error_app_l _ _ e _ _ Hth).
   destruct th as [b|o [d|] [c|]]; cbn [thunk_ok] in Hok; try contradiction.
-  - exists b, [], []. repeat split; try reflexivity; try (intros x []); [exact Hok | apply sb_sim_refl].
-  - destruct Hok as (_ & Hwf & Hd). exists o, (filter (fun x => mem x d) names), d.
+  - destruct Hok as [Hwf Hc]. exists b, [], (Some []). cbn [fil].
+    repeat split; try reflexivity; try (intros x []); try assumption; [apply sb_sim_refl | left; reflexivity].
+  - destruct Hok as (Hu & _ & Hwf & Hd). exists o, (filter (fun x => mem x d) names), (Some d). cbn [fil].
     assert (Hsub : incl d (filter (fun x => mem x d) names)).
     { intros x Hx. apply filter_In. split; [apply Hinc, Hd, Hx | apply mem_In, Hx]. }
-    repeat split; try reflexivity.
-    + exact Hd.
+    split; [reflexivity|]. split; [reflexivity|]. split; [|split; [|split]].
     + intros x Hx. apply filter_In in Hx. apply mem_In. tauto.
     + eapply wf_body_mono; eassumption.
     + cbn [abs_thunk]. apply abs_body_sim. intros x. rewrite mem_filter.
       destruct (mem x d) eqn:E; [|rewrite andb_false_r; reflexivity].
       apply mem_In in E. apply Hd, Hinc in E. apply mem_In in E. rewrite E. reflexivity.
+    + split; [exact Hd|]. split; [right; exact Hu|]. intros Hu'. congruence.
+  - destruct Hok as (Hu & _ & Hwf & Hcl). exists o, names, None. cbn [fil].
+    split; [reflexivity|]. split; [reflexivity|]. split; [apply incl_refl|]. split; [|split].
+    + eapply wf_body_mono; eassumption.
+    + cbn [abs_thunk]. apply abs_body_closed; assumption.
+    + split; [exact Hu | eapply closed_in_mono; eassumption].
 Qed.
 
 (* the value part of merge_fields *)
@@ -422,7 +475,7 @@ Lemma merge_val_ok : forall c ths0 e rid1 rid2 k1 k2 names f1 f2 ths' p v,
   c_revert c = RevFresh ->
   fld_ok ths0 rid1 k1 f1 -> fld_ok ths0 rid2 k2 f2 -> incl k1 names -> incl k2 names ->
   merge_val c names (ths0 ++ e) f1 f2 = (ths', (p, v)) ->
-  let tg := smerge_fld (abs_fld ths0 f1) (abs_fld ths0 f2) in
+  let tg := smerge_fld (abs_fld ths0 k1 f1) (abs_fld ths0 k2 f2) in
   exists e', ths' = (ths0 ++ e) ++ e' /\ p = sprio tg /\
              val_ok (length ths0) names ths' v (sval tg) /\
              fresh_seq (length ths0) (length (ths0 ++ e)) (length ths') (match v with Some t => [t] | None => [] end).
@@ -434,22 +487,34 @@ Proof.
     + (* equal priorities: fields_merge_closurize *)
       destruct (fld_ok_val _ _ _ _ _ Hok1 Ev1) as (th1 & Hth1 & Htok1).
       destruct (fld_ok_val _ _ _ _ _ Hok2 Ev2) as (th2 & Hth2 & Htok2).
-      destruct (saturate_ok ths0 e rid1 k1 names t1 th1 Hth1 Htok1 Hi1) as (b1 & d1' & d1 & Hs1 & Hd1 & Hk1 & Hsub1 & Hw1 & Hsim1).
-      destruct (saturate_ok ths0 e rid2 k2 names t2 th2 Hth2 Htok2 Hi2) as (b2 & d2' & d2 & Hs2 & Hd2 & Hk2 & Hsub2 & Hw2 & Hsim2).
-      rewrite Hs1, Hs2, Hd1, Hd2 in Hm. cbn [union_deps] in Hm. inversion Hm; subst. clear Hm.
-      set (U := d1 ++ filter (fun x => negb (mem x d1)) d2).
-      assert (HU1 : incl d1 U) by (intros x Hx; apply in_or_app; left; exact Hx).
-      assert (HU2 : incl d2 U).
-      { intros x Hx. apply in_or_app. destruct (mem x d1) eqn:E; [left; apply mem_In; exact E|].
-        right. apply filter_In. split; [exact Hx | rewrite E; reflexivity]. }
-      assert (HUn : incl U names).
-      { intros x Hx. apply in_app_or in Hx. destruct Hx as [Hx|Hx]; [apply Hi1, Hk1, Hx|].
-        apply filter_In in Hx. apply Hi2, Hk2. tauto. }
-      exists [mk_thunk (BMerge b1 d1' b2 d2') (Some U)]. split; [reflexivity|]. split; [reflexivity|]. split.
-      * cbn [val_ok]. exists (mk_thunk (BMerge b1 d1' b2 d2') (Some U)).
+      destruct (saturate_ok ths0 e rid1 k1 names t1 th1 Hth1 Htok1 Hi1) as (b1 & d1' & dop1 & Hs1 & Hd1 & Hsub1 & Hw1 & Hsim1 & Hm1).
+      destruct (saturate_ok ths0 e rid2 k2 names t2 th2 Hth2 Htok2 Hi2) as (b2 & d2' & dop2 & Hs2 & Hd2 & Hsub2 & Hw2 & Hsim2 & Hm2).
+      rewrite Hs1, Hs2, Hd1, Hd2 in Hm. inversion Hm; subst ths' p v. clear Hm.
+      set (U := union_deps dop1 dop2).
+      assert (HF1 : incl (fil names dop1) (fil names U)).
+      { unfold U. destruct dop1 as [d1|], dop2 as [d2|]; cbn [union_deps fil]; try apply incl_refl.
+        - intros x Hx. apply in_or_app. left. exact Hx.
+        - destruct Hm1 as (Hk & _). intros x Hx. apply Hi1, Hk, Hx. }
+      assert (HF2 : incl (fil names dop2) (fil names U)).
+      { unfold U. destruct dop1 as [d1|], dop2 as [d2|]; cbn [union_deps fil]; try apply incl_refl.
+        - intros x Hx. apply in_or_app. destruct (mem x d1) eqn:E; [left; apply mem_In; exact E|].
+          right. apply filter_In. split; [exact Hx | rewrite E; reflexivity].
+        - destruct Hm2 as (Hk & _). intros x Hx. apply Hi2, Hk, Hx. }
+      exists [mk_thunk (BMerge b1 d1' b2 d2') U]. split; [reflexivity|]. split; [reflexivity|]. split.
+      * cbn [val_ok]. exists (mk_thunk (BMerge b1 d1' b2 d2') U).
         rewrite nth_error_app2 by lia. rewrite Nat.sub_diag. split; [reflexivity|]. split.
-        -- apply mk_thunk_pre; [rewrite app_length; lia | | exact HUn].
-           cbn [wf_body]. repeat split; try assumption; eapply incl_tran; eassumption.
+        -- apply mk_thunk_pre; [rewrite app_length; lia | |].
+           ++ cbn [wf_body]. repeat split; try assumption; eapply incl_tran; eassumption.
+           ++ unfold U. destruct dop1 as [d1|], dop2 as [d2|]; cbn [union_deps closed_in].
+              ** destruct Hm1 as (Hk1 & Hz1 & Hc1). destruct Hm2 as (Hk2 & Hz2 & Hc2). split; [|split].
+                 --- intros x Hx. apply in_app_or in Hx. destruct Hx as [Hx|Hx]; [apply Hi1, Hk1, Hx|].
+                     apply filter_In in Hx. apply Hi2, Hk2. tauto.
+                 --- destruct Hz1 as [->|Hu]; [|right; exact Hu]. destruct Hz2 as [->|Hu]; [left; reflexivity | right; exact Hu].
+                 --- intros Hu. destruct Hz1 as [->|Hu1]; [|congruence]. destruct Hz2 as [->|Hu2]; [|congruence].
+                     apply incl_nil_eq in Hsub1. apply incl_nil_eq in Hsub2. subst d1' d2'. split; auto.
+              ** destruct Hm1 as (_ & _ & Hc1). destruct Hm2 as (Hu & Hc2). split; [exact Hu|]. split; auto.
+              ** destruct Hm1 as (Hu & Hc1). destruct Hm2 as (_ & _ & Hc2). split; [exact Hu|]. split; auto.
+              ** destruct Hm1 as (Hu & Hc1). destruct Hm2 as (_ & Hc2). split; [exact Hu|]. split; assumption.
         -- rewrite mk_thunk_abs. cbn [abs_body]. unfold abs_tid. rewrite Hth1, Hth2. constructor; assumption.
       * apply fresh_seq_one. rewrite !app_length. cbn [length]. lia.
     + (* the right side wins *)
@@ -458,17 +523,17 @@ Proof.
                   (fun tid E => fld_ok_val _ _ _ _ _ Hok2 (eq_trans Ev2 E)) Hi2 E1) as (e' & -> & Hv & Hf).
       exists e'. split; [reflexivity|]. split; [reflexivity|]. split; assumption.
     + destruct (revert_val RevFresh (ths0 ++ e) (Some t1)) as [ths1 v1] eqn:E1. inversion Hm; subst.
- destruct (revert_val_ok _ _ _ _ _ _ _ _
-             (fun tid E => fld_ok_val _ _ _ _ _ Hok1 (eq_trans Ev1 E)) Hi1 E1) as (e' & -> & Hv & Hf).
- exists e'. split; [reflexivity|]. split; [reflexivity|]. split; assumption.
+      destruct (revert_val_ok _ _ _ _ _ _ _ _
+                  (fun tid E => fld_ok_val _ _ _ _ _ Hok1 (eq_trans Ev1 E)) Hi1 E1) as (e' & -> & Hv & Hf).
+      exists e'. split; [reflexivity|]. split; [reflexivity|]. split; assumption.
   - destruct (revert_val RevFresh (ths0 ++ e) (Some t1)) as [ths1 v1] eqn:E1. inversion Hm; subst.
- destruct (revert_val_ok _ _ _ _ _ _ _ _
-             (fun tid E => fld_ok_val _ _ _ _ _ Hok1 (eq_trans Ev1 E)) Hi1 E1) as (e' & -> & Hv & Hf).
- exists e'. split; [reflexivity|]. split; [reflexivity|]. split; assumption.
+    destruct (revert_val_ok _ _ _ _ _ _ _ _
+                (fun tid E => fld_ok_val _ _ _ _ _ Hok1 (eq_trans Ev1 E)) Hi1 E1) as (e' & -> & Hv & Hf).
+    exists e'. split; [reflexivity|]. split; [reflexivity|]. split; assumption.
   - destruct (revert_val RevFresh (ths0 ++ e) (Some t2)) as [ths1 v1] eqn:E1. inversion Hm; subst.
- destruct (revert_val_ok _ _ _ _ _ _ _ _
-             (fun tid E => fld_ok_val _ _ _ _ _ Hok2 (eq_trans Ev2 E)) Hi2 E1) as (e' & -> & Hv & Hf).
- exists e'. split; [reflexivity|]. split; [reflexivity|]. split; assumption.
+    destruct (revert_val_ok _ _ _ _ _ _ _ _
+                (fun tid E => fld_ok_val _ _ _ _ _ Hok2 (eq_trans Ev2 E)) Hi2 E1) as (e' & -> & Hv & Hf).
+    exists e'. split; [reflexivity|]. split; [reflexivity|]. split; assumption.
   - inversion Hm; subst. exists []. rewrite app_nil_r. split; [reflexivity|]. split; [reflexivity|].
     split; [exact I | apply fresh_seq_nil].
 Qed.
@@ -484,7 +549,7 @@ Lemma merge_fld_ok : forall c ths0 e rid1 rid2 k1 k2 names f1 f2 ths' f',
   fld_ok ths0 rid1 k1 f1 -> fld_ok ths0 rid2 k2 f2 -> incl k1 names -> incl k2 names ->
   merge_fld c names (ths0 ++ e) f1 f2 = (ths', f') ->
   exists e', ths' = (ths0 ++ e) ++ e' /\
-             out_ok (length ths0) names ths' (smerge_fld (abs_fld ths0 f1) (abs_fld ths0 f2)) f' /\
+             out_ok (length ths0) names ths' (smerge_fld (abs_fld ths0 k1 f1) (abs_fld ths0 k2 f2)) f' /\
              fresh_seq (length ths0) (length (ths0 ++ e)) (length ths') (ftids f').
 Proof.
   intros c ths0 e rid1 rid2 k1 k2 names f1 f2 ths' f' Hrev Hok1 Hok2 Hi1 Hi2 Hm. unfold merge_fld in Hm.
@@ -535,6 +600,11 @@ Proof.
 Qed.
 
 
+Lemma pre_thunk_fresh : forall n0 keys tid o dd c, pre_thunk n0 keys tid (Rev o dd c) -> c = None /\ n0 <= tid.
+Proof.
+  intros n0 keys tid o [d|] [c|] H; cbn [pre_thunk] in H; try contradiction; split; try reflexivity; tauto.
+Qed.
+
 Lemma patch_tids_ok : forall rid n0 keys ts ths,
   (forall tid, In tid ts -> pre_tid n0 keys ths tid) ->
   NoDup (filter (isfresh n0) ts) ->
@@ -545,7 +615,7 @@ Proof.
   intros rid n0 keys. induction ts as [|tid ts IH]; intros ths Hpre Hnd.
   - exists ths. split; [reflexivity|]. split; [reflexivity|]. intros i. destruct (nth_error ths i); reflexivity.
   - cbn [patch_tids]. destruct (Hpre tid (or_introl eq_refl)) as (th & Hth & Hpt). rewrite Hth.
-    destruct th as [b|o [d|] [c|]]; cbn [pre_thunk] in Hpt; try contradiction.
+    destruct th as [b|o dd c].
     + (* standard thunk: nothing to do *)
       cbn [patch_thunk]. rewrite (set_nth_same _ _ _ _ Hth).
       assert (Hnd' : NoDup (filter (isfresh n0) ts)).
@@ -556,13 +626,13 @@ Proof.
       destruct (Nat.eqb i tid) eqn:E; [|reflexivity]. apply Nat.eqb_eq in E. subst i. rewrite Hth.
       cbn [option_map orb]. destruct (in_nat tid ts); reflexivity.
     + (* fresh revertible thunk: set its cached value *)
-      destruct Hpt as (Hge & Hwf & Hd). cbn [patch_thunk].
+      destruct (pre_thunk_fresh _ _ _ _ _ _ Hpt) as [-> Hge]. cbn [patch_thunk].
       assert (Hfil : filter (isfresh n0) (tid :: ts) = tid :: filter (isfresh n0) ts).
       { cbn [filter]. unfold isfresh at 1. apply Nat.leb_le in Hge. rewrite Hge. reflexivity. }
       rewrite Hfil in Hnd. inversion Hnd as [|? ? Hni Hnd']; subst.
       assert (Hni' : ~ In tid ts).
       { intros H. apply Hni. apply filter_In. split; [exact H | apply Nat.leb_le; exact Hge]. }
-      set (ths1 := set_nth tid (Rev o (Some d) (Some rid)) ths).
+      set (ths1 := set_nth tid (Rev o dd (Some rid)) ths).
       assert (Hpre1 : forall t, In t ts -> pre_tid n0 keys ths1 t).
       { intros t Hin. destruct (Hpre t (or_intror Hin)) as (th' & Hth' & Hpt').
         exists th'. split; [|exact Hpt']. unfold ths1. rewrite nth_error_set_nth_neq; [exact Hth'|].
@@ -587,8 +657,8 @@ Proof.
   destruct (in_nat i ts) eqn:Em; [|reflexivity].
   apply in_nat_In in Em. destruct (Hpre i Em) as (th' & Hth' & Hpt).
   rewrite Eth in Hth'. inversion Hth'; subst th'.
-  destruct th as [b|o [d|] [c|]]; cbn [pre_thunk] in Hpt; try contradiction; [reflexivity|].
-  destruct Hpt as (Hge & _). lia.
+  destruct th as [b|o dd c]; [reflexivity|].
+  destruct (pre_thunk_fresh _ _ _ _ _ _ Hpt) as [_ Hge]. lia.
 Qed.
 
 (* ------------------------------------------------------------------------- lookups through split *)
@@ -721,7 +791,7 @@ Proof.
 Qed.
 
 Lemma extends_abs_tid : forall st st' rid keys tid,
-  extends st st' -> tid_ok (thunks st) rid keys tid -> abs_tid (thunks st') tid = abs_tid (thunks st) tid.
+  extends st st' -> tid_ok (thunks st) rid keys tid -> abs_tid (thunks st') keys tid = abs_tid (thunks st) keys tid.
 Proof.
   intros st st' rid keys tid [_ H] (th & Hth & _). unfold abs_tid. rewrite H; [reflexivity|]. apply nth_error_Some. congruence.
 Qed.
@@ -731,7 +801,7 @@ Lemma extends_fld_ok : forall st st' rid keys f,
 Proof. intros st st' rid keys f Hext Hok tid Hin. eapply extends_tid_ok; [exact Hext | apply Hok; exact Hin]. Qed.
 
 Lemma extends_abs_fld : forall st st' rid keys f,
-  extends st st' -> fld_ok (thunks st) rid keys f -> abs_fld (thunks st') f = abs_fld (thunks st) f.
+  extends st st' -> fld_ok (thunks st) rid keys f -> abs_fld (thunks st') keys f = abs_fld (thunks st) keys f.
 Proof.
   intros st st' rid keys f Hext Hok. unfold abs_fld. f_equal.
   - destruct (ival f) as [tid|] eqn:Ev; [|reflexivity]. cbn [option_map]. f_equal.
@@ -751,40 +821,41 @@ Proof.
 Qed.
 
 (* ------------------------------------------------------------------------- merge *)
-Lemma abs_thunk_patch1 : forall rid th, abs_thunk (patch1 rid th) = abs_thunk th.
-Proof. intros rid [b|o [d|] [c|]]; reflexivity. Qed.
+Lemma abs_thunk_patch1 : forall keys rid th, abs_thunk keys (patch1 rid th) = abs_thunk keys th.
+Proof. intros keys rid [b|o [d|] [c|]]; reflexivity. Qed.
 
 (* a thunk of the new record after patching *)
 Lemma slot_patched : forall n0 keys ths3 ths4 rid ts tid sb,
   (forall i, nth_error ths4 i
              = option_map (fun th => if in_nat i ts then patch1 rid th else th) (nth_error ths3 i)) ->
   In tid ts -> slot_ok n0 keys ths3 tid sb ->
-  sb_sim (abs_tid ths4 tid) sb /\ tid_ok ths4 rid keys tid.
+  sb_sim (abs_tid ths4 keys tid) sb /\ tid_ok ths4 rid keys tid.
 Proof.
   intros n0 keys ths3 ths4 rid ts tid sb Hnth Hin (th & Hth & Hpre & Hsim).
-  apply in_nat_In in Hin. unfold abs_tid, tid_ok. rewrite Hnth, Hth. cbn [option_map]. rewrite Hin. split.
+  apply in_nat_In in Hin. unfold abs_tid, MechInv.tid_ok. rewrite Hnth, Hth. cbn [option_map]. rewrite Hin. split.
   - rewrite abs_thunk_patch1. exact Hsim.
   - exists (patch1 rid th). split; [reflexivity|].
-    destruct th as [b|o [d|] [c|]]; cbn [pre_thunk] in Hpre; try contradiction; cbn [patch1 thunk_ok].
+    destruct th as [b|o [d|] [c|]]; cbn [pre_thunk] in Hpre; try contradiction; cbn [patch1 MechInv.thunk_ok].
     + exact Hpre.
-    + destruct Hpre as (_ & Hwf & Hd). repeat split; assumption.
+    + destruct Hpre as (Hu & _ & Hwf & Hd). repeat split; assumption.
+    + destruct Hpre as (Hu & _ & Hwf & Hc). repeat split; assumption.
 Qed.
 
 Lemma out_ok_patched : forall n0 keys ths3 ths4 rid outs tgt k f,
   (forall i, nth_error ths4 i
              = option_map (fun th => if in_nat i (tids outs) then patch1 rid th else th) (nth_error ths3 i)) ->
   In (k, f) outs -> out_ok n0 keys ths3 tgt f ->
-  sfld_sim (abs_fld ths4 f) tgt /\ fld_ok ths4 rid keys f.
+  sfld_sim (abs_fld ths4 keys f) tgt /\ fld_ok ths4 rid keys f.
 Proof.
   intros n0 keys ths3 ths4 rid outs tgt k f Hnth Hin (Hp & Hv & Hc).
   assert (Hsub : forall tid, In tid (ftids f) -> In tid (tids outs)).
   { intros tid Ht. unfold tids. apply in_flat_map. exists (k, f). split; [exact Hin | exact Ht]. }
   assert (Hval : forall tid sb, ival f = Some tid -> sval tgt = Some sb ->
-                 sb_sim (abs_tid ths4 tid) sb /\ tid_ok ths4 rid keys tid).
+                 sb_sim (abs_tid ths4 keys tid) sb /\ tid_ok ths4 rid keys tid).
   { intros tid sb Ev Es. rewrite Ev, Es in Hv. cbn [val_ok] in Hv.
     apply (slot_patched n0 keys ths3 ths4 rid (tids outs) tid sb Hnth); [|exact Hv].
     apply Hsub. unfold ftids. rewrite Ev. left. reflexivity. }
-  assert (Hctr : Forall2 (fun kc ks => fst kc = fst ks /\ sb_sim (abs_tid ths4 (snd kc)) (snd ks) /\ tid_ok ths4 rid keys (snd kc))
+  assert (Hctr : Forall2 (fun kc ks => fst kc = fst ks /\ sb_sim (abs_tid ths4 keys (snd kc)) (snd ks) /\ tid_ok ths4 rid keys (snd kc))
                          (ictrs f) (sctrs tgt)).
   { assert (Hsubc : forall kc, In kc (ictrs f) -> In (snd kc) (tids outs)).
     { intros kc Hkc. apply Hsub. unfold ftids. apply in_or_app. right. apply in_map. exact Hkc. }
@@ -825,6 +896,64 @@ Proof.
   - right. right. split; [exact Hk | reflexivity].
 Qed.
 
+Lemma sfld_sim_trans : forall f1 f2 f3, sfld_sim f1 f2 -> sfld_sim f2 f3 -> sfld_sim f1 f3.
+Proof.
+  intros f1 f2 f3 H1 H2. exact (opt_sim_trans (Some f1) (Some f2) (Some f3) H1 H2).
+Qed.
+
+(* only the membership in the field names matters *)
+Lemma abs_tid_keys_sim : forall ths k1 k2 tid, (forall x, mem x k1 = mem x k2) -> sb_sim (abs_tid ths k1 tid) (abs_tid ths k2 tid).
+Proof.
+  intros ths k1 k2 tid H. unfold abs_tid. destruct (nth_error ths tid) as [[b|o [d|] c]|]; cbn [abs_thunk]; try apply sb_sim_refl.
+  apply abs_body_sim. exact H.
+Qed.
+
+Lemma abs_fld_keys_sim : forall ths k1 k2 f, (forall x, mem x k1 = mem x k2) -> sfld_sim (abs_fld ths k1 f) (abs_fld ths k2 f).
+Proof.
+  intros ths k1 k2 f H. split; [reflexivity|]. cbn [abs_fld sval sctrs]. split.
+  - destruct (ival f) as [tid|]; cbn [option_map osb_sim]; [apply abs_tid_keys_sim; exact H | exact I].
+  - unfold ctrs_sim. induction (ictrs f) as [|kc cs IH]; cbn [map]; constructor; [|exact IH].
+    split; [reflexivity | apply abs_tid_keys_sim; exact H].
+Qed.
+
+(* a coherent field denotes the same under any larger set of field names *)
+Lemma abs_tid_scope_sim : forall ths rid names keys' tid,
+  incl names keys' -> tid_ok ths rid names tid -> sb_sim (abs_tid ths keys' tid) (abs_tid ths names tid).
+Proof.
+  intros ths rid names keys' tid Hinc (th & Hth & Htok). unfold abs_tid. rewrite Hth.
+  destruct th as [b|o [d|] [c|]]; cbn [MechInv.thunk_ok] in Htok; try contradiction; cbn [abs_thunk]; try apply sb_sim_refl.
+  destruct Htok as (_ & _ & _ & Hcl). apply abs_body_closed; assumption.
+Qed.
+
+Lemma abs_fld_scope_sim : forall ths rid names keys' f,
+  incl names keys' -> fld_ok ths rid names f -> sfld_sim (abs_fld ths keys' f) (abs_fld ths names f).
+Proof.
+  intros ths rid names keys' f Hinc Hok. split; [reflexivity|]. cbn [abs_fld sval sctrs]. split.
+  - destruct (ival f) as [tid|] eqn:Ev; cbn [option_map osb_sim]; [|exact I].
+    eapply abs_tid_scope_sim; [exact Hinc | eapply fld_ok_val; eassumption].
+  - unfold ctrs_sim. assert (Hc : forall kc, In kc (ictrs f) -> tid_ok ths rid names (snd kc)) by (intros kc H; eapply fld_ok_ctr; eassumption).
+    induction (ictrs f) as [|kc cs IH]; cbn [map]; constructor.
+    + split; [reflexivity|]. eapply abs_tid_scope_sim; [exact Hinc | apply Hc; left; reflexivity].
+    + apply IH. intros kc' H. apply Hc. right. exact H.
+Qed.
+
+Lemma wf_body_equiv : forall b d d', (forall x, mem x d' = mem x d) -> wf_body d b -> wf_body d' b.
+Proof.
+  intros b d d' H. apply wf_body_mono. intros x Hx. apply mem_In. rewrite H. apply mem_In. exact Hx.
+Qed.
+
+Lemma fld_ok_keys_equiv : forall ths rid keys keys' f,
+  (forall x, mem x keys' = mem x keys) -> fld_ok ths rid keys f -> fld_ok ths rid keys' f.
+Proof.
+  intros ths rid keys keys' f H Hok tid Ht. destruct (Hok tid Ht) as (th & Hth & Htok). exists th. split; [exact Hth|].
+  assert (Hinc : incl keys keys') by (intros x Hx; apply mem_In; rewrite H; apply mem_In; exact Hx).
+  destruct th as [b|o [d|] [c0|]]; cbn [MechInv.thunk_ok] in *; try contradiction; [exact Htok| |].
+  - destruct Htok as (Hu & Hc & Hwf & Hd). repeat split; try assumption. eapply incl_tran; eassumption.
+  - destruct Htok as (Hu & Hc & Hwf & Hcl). repeat split; try assumption.
+    + eapply wf_body_mono; eassumption.
+    + eapply closed_in_mono; eassumption.
+Qed.
+
 Theorem merge_general_ok : forall c st rid1 rid2 r1 r2,
   faithful c ->
   nth_error (recs st) rid1 = Some r1 -> nth_error (recs st) rid2 = Some r2 ->
@@ -846,13 +975,13 @@ Proof.
   rewrite (revert_all_thread RevFresh ths0 L).
   destruct (thread ifld (revert_fld RevFresh) ths0 L) as [ths1 L'] eqn:E1.
   rewrite <- (app_nil_r ths0) in E1.
-  destruct (thread_ok ifld (revert_fld RevFresh) (abs_fld ths0) ths0 names (fun f => fld_ok ths0 rid1 (ikeys r1) f)
+  destruct (thread_ok ifld (revert_fld RevFresh) (abs_fld ths0 (ikeys r1)) ths0 names (fun f => fld_ok ths0 rid1 (ikeys r1) f)
               (fun e x ths' f' HP Hs => revert_fld_ok ths0 e rid1 (ikeys r1) names x ths' f' HP Hin1 Hs)
               L [] ths1 L') as (e1 & -> & HF1 & Hfr1); [|exact E1|].
   { intros k f Hin. apply (Hok1 k f). unfold L, split_left in Hin. apply filter_In in Hin. tauto. }
   rewrite (revert_all_thread RevFresh _ R). rewrite app_nil_r in *.
   destruct (thread ifld (revert_fld RevFresh) (ths0 ++ e1) R) as [ths2 R'] eqn:E2.
-  destruct (thread_ok ifld (revert_fld RevFresh) (abs_fld ths0) ths0 names (fun f => fld_ok ths0 rid2 (ikeys r2) f)
+  destruct (thread_ok ifld (revert_fld RevFresh) (abs_fld ths0 (ikeys r2)) ths0 names (fun f => fld_ok ths0 rid2 (ikeys r2) f)
               (fun e x ths' f' HP Hs => revert_fld_ok ths0 e rid2 (ikeys r2) names x ths' f' HP Hin2 Hs)
               R e1 ths2 R') as (e2 & -> & HF2 & Hfr2); [|exact E2|].
   { intros k f Hin. apply (Hok2 k f). unfold R, split_left in Hin. apply filter_In in Hin. tauto. }
@@ -860,7 +989,7 @@ Proof.
   destruct (thread (ifld * ifld) (fun ths x => merge_fld c names ths (fst x) (snd x)) (ths0 ++ e1 ++ e2) C)
     as [ths3 C'] eqn:E3.
   destruct (thread_ok (ifld * ifld) (fun ths x => merge_fld c names ths (fst x) (snd x))
-              (fun x => smerge_fld (abs_fld ths0 (fst x)) (abs_fld ths0 (snd x))) ths0 names
+              (fun x => smerge_fld (abs_fld ths0 (ikeys r1) (fst x)) (abs_fld ths0 (ikeys r2) (snd x))) ths0 names
               (fun x => fld_ok ths0 rid1 (ikeys r1) (fst x) /\ fld_ok ths0 rid2 (ikeys r2) (snd x))
               (fun e x ths' f' HP Hs => merge_fld_ok c ths0 e rid1 rid2 (ikeys r1) (ikeys r2) names (fst x) (snd x) ths' f'
                                           Hrev (proj1 HP) (proj2 HP) Hin1 Hin2 Hs)
@@ -873,23 +1002,26 @@ Proof.
     - apply (Hok2 k f2). apply ilookup_In. exact El. }
   set (ths3 := (ths0 ++ e1 ++ e2) ++ e3) in *.
   (* everything stated for the final pre-patch heap *)
-  assert (HF1' : Forall2 (fld_rel ifld (abs_fld ths0) ths0 names ths3) L L').
+  assert (HF1' : Forall2 (fld_rel ifld (abs_fld ths0 (ikeys r1)) ths0 names ths3) L L').
   { unfold ths3. rewrite (app_assoc ths0 e1 e2), <- app_assoc. apply fld_rel_app. exact HF1. }
-  assert (HF2' : Forall2 (fld_rel ifld (abs_fld ths0) ths0 names ths3) R R').
+  assert (HF2' : Forall2 (fld_rel ifld (abs_fld ths0 (ikeys r2)) ths0 names ths3) R R').
   { unfold ths3. apply fld_rel_app. exact HF2. }
   clear HF1 HF2.
   set (newrec := L' ++ R' ++ C').
-  set (Q1 := fun (x : ifld) (f' : ifld) => out_ok (length ths0) names ths3 (abs_fld ths0 x) f').
+  set (Q1 := fun (x : ifld) (f' : ifld) => out_ok (length ths0) names ths3 (abs_fld ths0 (ikeys r1) x) f').
+  set (Q2 := fun (x : ifld) (f' : ifld) => out_ok (length ths0) names ths3 (abs_fld ths0 (ikeys r2) x) f').
   set (Q3 := fun (x : ifld * ifld) (f' : ifld) =>
-               out_ok (length ths0) names ths3 (smerge_fld (abs_fld ths0 (fst x)) (abs_fld ths0 (snd x))) f').
+               out_ok (length ths0) names ths3 (smerge_fld (abs_fld ths0 (ikeys r1) (fst x)) (abs_fld ths0 (ikeys r2) (snd x))) f').
   (* keys *)
   assert (HkL : ikeys L' = ikeys L) by (apply (Forall2_keys ifld Q1 _ _ HF1')).
-  assert (HkR : ikeys R' = ikeys R) by (apply (Forall2_keys ifld Q1 _ _ HF2')).
+  assert (HkR : ikeys R' = ikeys R) by (apply (Forall2_keys ifld Q2 _ _ HF2')).
   assert (HkC : ikeys C' = map fst C) by (apply (Forall2_keys (ifld * ifld) Q3 _ _ HF3)).
   assert (Hkeys : ikeys newrec = ikeys L ++ ikeys R ++ map fst C).
   { unfold newrec, ikeys. rewrite !map_app. fold (ikeys L') (ikeys R') (ikeys C'). rewrite HkL, HkR, HkC. reflexivity. }
   assert (Hnames_keys : incl names (ikeys newrec)).
   { rewrite Hkeys. unfold names. intros x Hx. rewrite !in_app_iff in *. tauto. }
+  assert (Hmem : forall x, mem x (ikeys newrec) = mem x names).
+  { intros x. apply mem_ext. rewrite Hkeys. unfold names. rewrite !in_app_iff. tauto. }
   assert (Hndk : NoDup (ikeys newrec)).
   { rewrite Hkeys. unfold L, R, C. rewrite !keys_split_left, keys_split_center.
     apply NoDup_app_disj; [apply NoDup_filter; exact Hnd1 | apply NoDup_app_disj; [apply NoDup_filter; exact Hnd2 | apply NoDup_filter; exact Hnd1 |] |].
@@ -913,7 +1045,7 @@ Proof.
       eapply out_ok_pre; eassumption. }
     destruct Hin as [Hin|[Hin|Hin]].
     - apply (Hgen ifld Q1 L L' HF1'); [|exact Hin]. intros x f' Hq. eexists. exact Hq.
-    - apply (Hgen ifld Q1 R R' HF2'); [|exact Hin]. intros x f' Hq. eexists. exact Hq.
+    - apply (Hgen ifld Q2 R R' HF2'); [|exact Hin]. intros x f' Hq. eexists. exact Hq.
     - apply (Hgen (ifld * ifld)%type Q3 C C' HF3); [|exact Hin]. intros x f' Hq. eexists. exact Hq. }
   assert (Hndt : NoDup (filter (isfresh (length ths0)) (tids newrec))).
   { rewrite Htids. apply (fresh_seq_NoDup (length ths0) (length ths0) (length ths3)). unfold ths3 in Hfr3 |- *.
@@ -924,28 +1056,28 @@ Proof.
   fold newrec. unfold patch_all. fold (tids newrec). rewrite Hpatch.
   exists {| thunks := ths4; recs := recs st ++ [newrec] |}. split; [reflexivity|].
   assert (Hfld : forall k f, In (k, f) newrec ->
-            exists tgt, sfld_sim (abs_fld ths4 f) tgt /\ fld_ok ths4 (length (recs st)) names f /\
-                        ((exists f1, ilookup k L = Some f1 /\ tgt = abs_fld ths0 f1 /\ In (k, f) L') \/
-                         (exists f2, ilookup k R = Some f2 /\ tgt = abs_fld ths0 f2 /\ In (k, f) R') \/
-                         (exists x, In (k, x) C /\ tgt = smerge_fld (abs_fld ths0 (fst x)) (abs_fld ths0 (snd x)) /\ In (k, f) C'))).
+            exists tgt, sfld_sim (abs_fld ths4 names f) tgt /\ fld_ok ths4 (length (recs st)) names f /\
+                        ((exists f1, ilookup k L = Some f1 /\ tgt = abs_fld ths0 (ikeys r1) f1 /\ In (k, f) L') \/
+                         (exists f2, ilookup k R = Some f2 /\ tgt = abs_fld ths0 (ikeys r2) f2 /\ In (k, f) R') \/
+                         (exists x, In (k, x) C /\ tgt = smerge_fld (abs_fld ths0 (ikeys r1) (fst x)) (abs_fld ths0 (ikeys r2) (snd x)) /\ In (k, f) C'))).
   { intros k f Hin. pose proof Hin as Hin'. unfold newrec in Hin'. rewrite !in_app_iff in Hin'.
     destruct Hin' as [HinX|[HinX|HinX]].
     - pose proof (Forall2_lookup ifld Q1 _ _ HF1' k) as Hl.
       destruct (Forall2_In_r ifld Q1 _ _ HF1' k f HinX) as (x & Hx & Ho).
       destruct (out_ok_patched _ _ _ _ _ _ _ _ _ Hnth4 Hin Ho) as [Hs Hf].
-      exists (abs_fld ths0 x). split; [exact Hs|]. split; [exact Hf|]. left. exists x.
+      exists (abs_fld ths0 (ikeys r1) x). split; [exact Hs|]. split; [exact Hf|]. left. exists x.
       split; [|split; [reflexivity | exact HinX]].
       apply ilookup_NoDup; [|exact Hx]. rewrite <- HkL. unfold newrec in Hndk. unfold ikeys in Hndk. rewrite map_app in Hndk.
       apply NoDup_app_l in Hndk. exact Hndk.
-    - destruct (Forall2_In_r ifld Q1 _ _ HF2' k f HinX) as (x & Hx & Ho).
+    - destruct (Forall2_In_r ifld Q2 _ _ HF2' k f HinX) as (x & Hx & Ho).
       destruct (out_ok_patched _ _ _ _ _ _ _ _ _ Hnth4 Hin Ho) as [Hs Hf].
-      exists (abs_fld ths0 x). split; [exact Hs|]. split; [exact Hf|]. right. left. exists x.
+      exists (abs_fld ths0 (ikeys r2) x). split; [exact Hs|]. split; [exact Hf|]. right. left. exists x.
       split; [|split; [reflexivity | exact HinX]].
       apply ilookup_NoDup; [|exact Hx]. rewrite <- HkR. unfold newrec in Hndk. unfold ikeys in Hndk. rewrite !map_app in Hndk.
       apply NoDup_app_r in Hndk. apply NoDup_app_l in Hndk. exact Hndk.
     - destruct (Forall2_In_r (ifld * ifld) Q3 _ _ HF3 k f HinX) as (x & Hx & Ho).
       destruct (out_ok_patched _ _ _ _ _ _ _ _ _ Hnth4 Hin Ho) as [Hs Hf].
-      exists (smerge_fld (abs_fld ths0 (fst x)) (abs_fld ths0 (snd x))). split; [exact Hs|]. split; [exact Hf|].
+      exists (smerge_fld (abs_fld ths0 (ikeys r1) (fst x)) (abs_fld ths0 (ikeys r2) (snd x))). split; [exact Hs|]. split; [exact Hf|].
       right. right. exists x. split; [exact Hx|]. split; [reflexivity | exact HinX]. }
   split; [|split].
   - (* nothing that existed before changes *)
@@ -954,16 +1086,14 @@ Proof.
   - (* the new record instance is coherent *)
     exists newrec. cbn [recs thunks]. split; [rewrite nth_error_app2 by lia; rewrite Nat.sub_diag; reflexivity|].
     split; [exact Hndk|]. intros k f Hin. destruct (Hfld k f Hin) as (tgt & _ & Hf & _).
-    intros tid Ht. destruct (Hf tid Ht) as (th & Hth & Htok). exists th. split; [exact Hth|].
-    destruct th as [b|o [d|] [c0|]]; cbn [thunk_ok] in *; try contradiction; [exact Htok|].
-    destruct Htok as (Hc & Hwf & Hd). repeat split; try assumption. eapply incl_tran; eassumption.
+    eapply fld_ok_keys_equiv; [|exact Hf]. exact Hmem.
   - (* it denotes the merge of the denotations of the operands *)
     intros k. unfold abs at 1. cbn [recs thunks]. rewrite nth_error_app2 by lia. rewrite Nat.sub_diag. cbn [nth_error].
     rewrite slookup_abs_rec, slookup_smerge. unfold abs. rewrite Hr1, Hr2, !slookup_abs_rec.
     pose proof (alookup_split_left k r1 r2) as HlL. fold L in HlL.
     pose proof (alookup_split_left k r2 r1) as HlR. fold R in HlR.
     pose proof (alookup_split_center k r1 r2) as HlC. fold C in HlC.
-    pose proof (Forall2_lookup ifld Q1 _ _ HF1' k) as HL. pose proof (Forall2_lookup ifld Q1 _ _ HF2' k) as HR.
+    pose proof (Forall2_lookup ifld Q1 _ _ HF1' k) as HL. pose proof (Forall2_lookup ifld Q2 _ _ HF2' k) as HR.
     pose proof (Forall2_lookup (ifld * ifld) Q3 _ _ HF3 k) as HC.
     unfold newrec. rewrite !ilookup_app.
     destruct (ilookup k r1) as [f1|] eqn:El1; destruct (ilookup k r2) as [f2|] eqn:El2; cbn [option_map smerge_opt].
@@ -976,13 +1106,13 @@ Proof.
       rewrite HL, HR. destruct HC as (f' & Hf' & Ho). rewrite Hf'. cbn [option_map opt_sim].
       assert (Hin : In (k, f') newrec).
       { unfold newrec. rewrite !in_app_iff. right. right. apply ilookup_In. exact Hf'. }
-      cbn [fst snd] in Ho. exact (proj1 (out_ok_patched _ _ _ _ _ _ _ _ _ Hnth4 Hin Ho)).
+      cbn [fst snd] in Ho. eapply sfld_sim_trans; [apply abs_fld_keys_sim; exact Hmem|]. exact (proj1 (out_ok_patched _ _ _ _ _ _ _ _ _ Hnth4 Hin Ho)).
     + (* only on the left *)
       apply mem_keys_lookup in El2. rewrite El2 in HlL. rewrite HlL in HL.
       destruct HL as (f' & Hf' & Ho). rewrite Hf'. cbn [option_map opt_sim].
       assert (Hin : In (k, f') newrec).
       { unfold newrec. rewrite !in_app_iff. left. apply ilookup_In. exact Hf'. }
-      exact (proj1 (out_ok_patched _ _ _ _ _ _ _ _ _ Hnth4 Hin Ho)).
+      eapply sfld_sim_trans; [apply abs_fld_keys_sim; exact Hmem|]. exact (proj1 (out_ok_patched _ _ _ _ _ _ _ _ _ Hnth4 Hin Ho)).
     + (* only on the right *)
       pose proof El1 as El1'. apply mem_keys_lookup in El1'. rewrite El1' in HlR. rewrite HlR in HR.
       assert (HlL' : alookup k L = None) by (rewrite HlL; destruct (mem k (ikeys r2)); reflexivity).
@@ -990,7 +1120,7 @@ Proof.
       destruct HR as (f' & Hf' & Ho). rewrite Hf'. cbn [option_map opt_sim].
       assert (Hin : In (k, f') newrec).
       { unfold newrec. rewrite !in_app_iff. right. left. apply ilookup_In. exact Hf'. }
-      exact (proj1 (out_ok_patched _ _ _ _ _ _ _ _ _ Hnth4 Hin Ho)).
+      eapply sfld_sim_trans; [apply abs_fld_keys_sim; exact Hmem|]. exact (proj1 (out_ok_patched _ _ _ _ _ _ _ _ _ Hnth4 Hin Ho)).
     + (* nowhere *)
       assert (HlL' : alookup k L = None) by (rewrite HlL; destruct (mem k (ikeys r2)); reflexivity).
       assert (HlR' : alookup k R = None) by (rewrite HlR; destruct (mem k (ikeys r1)); reflexivity).
@@ -1028,82 +1158,108 @@ Definition lit_tgt (names : list N) (d : fdef) : sfld :=
   {| sprio := fprio d; sval := option_map (SLeaf names) (fbody d);
      sctrs := map (fun kc => (fst kc, SLeaf names (snd kc))) (fctrs d) |}.
 
-(* a thunk allocated for a term of the literal whose variables are all accounted for by [deps] *)
-Lemma mk_thunk_leaf : forall n0 names tid t deps,
-  n0 <= tid -> incl deps names -> (forall x, In x (vars t) -> mem x deps = mem x names) ->
-  pre_thunk n0 names tid (mk_thunk (BSrc t) (Some deps)) /\
-  sb_sim (abs_thunk (mk_thunk (BSrc t) (Some deps))) (SLeaf names t).
+(* what the allocation of a thunk for a term [t] of the literal needs to know about the dependencies
+   [dop] of its field: known and exact on the variables of [t], or unknown with [t] closed *)
+Definition leaf_ok (names : list N) (dop : option (list N)) (t : tm) : Prop :=
+  match dop with
+  | Some deps => u = false /\ incl deps names /\ (forall x, In x (vars t) -> mem x deps = mem x names)
+  | None => u = true /\ incl (vars t) names
+  end.
+
+Lemma mk_thunk_leaf : forall n0 names tid t dop,
+  n0 <= tid -> leaf_ok names dop t ->
+  pre_thunk n0 names tid (mk_thunk (BSrc t) dop) /\
+  sb_sim (abs_thunk names (mk_thunk (BSrc t) dop)) (SLeaf names t).
 Proof.
-  intros n0 names tid t deps Hge Hinc Hv. split.
-  - apply mk_thunk_pre; [exact Hge | exact I | exact Hinc].
-  - rewrite mk_thunk_abs. cbn [abs_body]. constructor. exact Hv.
+  intros n0 names tid t dop Hge Hl. split.
+  - apply mk_thunk_pre; [exact Hge | exact I |]. destruct dop as [deps|]; cbn [leaf_ok] in Hl.
+    + destruct Hl as (Hu & Hinc & _). split; [exact Hinc|]. split; [right; exact Hu|]. intros Hu'. congruence.
+    + destruct Hl as (Hu & Hc). split; [exact Hu | exact Hc].
+  - rewrite mk_thunk_abs. cbn [abs_body]. destruct dop as [deps|]; cbn [leaf_ok fil] in *.
+    + constructor. exact (proj2 (proj2 Hl)).
+    + apply sb_sim_refl.
 Qed.
 
-Lemma alloc_ctrs_ok : forall n0 names deps cs ths0 e ths' r,
-  n0 = length ths0 -> incl deps names ->
-  (forall kc x, In kc cs -> In x (vars (snd kc)) -> mem x deps = mem x names) ->
-  alloc_ctrs (Some deps) (ths0 ++ e) cs = (ths', r) ->
+Lemma alloc_ctrs_ok : forall n0 names dop cs ths0 e ths' r,
+  n0 = length ths0 ->
+  (forall kc, In kc cs -> leaf_ok names dop (snd kc)) ->
+  alloc_ctrs dop (ths0 ++ e) cs = (ths', r) ->
   exists e', ths' = (ths0 ++ e) ++ e' /\
              ctrs_ok n0 names ths' r (map (fun kc => (fst kc, SLeaf names (snd kc))) cs) /\
              fresh_seq n0 (length (ths0 ++ e)) (length ths') (map snd r).
 Proof.
-  intros n0 names deps. induction cs as [|[k t] cs IH]; intros ths0 e ths' r Hn0 Hinc Hv Ha; cbn [alloc_ctrs] in Ha.
+  intros n0 names dop. induction cs as [|[k t] cs IH]; intros ths0 e ths' r Hn0 Hv Ha; cbn [alloc_ctrs] in Ha.
   - inversion Ha; subst. exists []. rewrite app_nil_r. split; [reflexivity|]. split; [constructor | apply fresh_seq_nil].
-  - destruct (alloc_ctrs (Some deps) ((ths0 ++ e) ++ [ctr_thunk (Some deps) t]) cs) as [ths1 r1] eqn:E1.
+  - destruct (alloc_ctrs dop ((ths0 ++ e) ++ [ctr_thunk dop t]) cs) as [ths1 r1] eqn:E1.
     inversion Ha; subst ths' r. clear Ha. rewrite <- app_assoc in E1.
-    destruct (IH ths0 (e ++ [ctr_thunk (Some deps) t]) ths1 r1 Hn0 Hinc (fun kc x H => Hv kc x (or_intror H)) E1) as (e2 & -> & Hc & Hf).
-    exists ([ctr_thunk (Some deps) t] ++ e2). split; [rewrite !app_assoc; reflexivity|]. split.
+    destruct (IH ths0 (e ++ [ctr_thunk dop t]) ths1 r1 Hn0 (fun kc H => Hv kc (or_intror H)) E1) as (e2 & -> & Hc & Hf).
+    exists ([ctr_thunk dop t] ++ e2). split; [rewrite !app_assoc; reflexivity|]. split.
     + cbn [map fst snd]. constructor; [|exact Hc]. split; [reflexivity|]. cbn [snd].
       assert (Hlt : n0 <= length (ths0 ++ e)) by (subst n0; rewrite app_length; lia).
-      destruct (mk_thunk_leaf n0 names (length (ths0 ++ e)) t deps Hlt Hinc (fun x Hx => Hv (k, t) x (or_introl eq_refl) Hx)) as [Hp Hs].
-      exists (ctr_thunk (Some deps) t). split; [|split; [exact Hp | exact Hs]].
+      destruct (mk_thunk_leaf n0 names (length (ths0 ++ e)) t dop Hlt (Hv (k, t) (or_introl eq_refl))) as [Hp Hs].
+      exists (ctr_thunk dop t). split; [|split; [exact Hp | exact Hs]].
       rewrite <- !app_assoc. rewrite (app_assoc ths0 e). rewrite nth_error_app2 by lia. rewrite Nat.sub_diag. reflexivity.
     + cbn [map snd]. change (length (ths0 ++ e) :: map snd r1) with ([length (ths0 ++ e)] ++ map snd r1).
       assert (H1 : fresh_seq n0 (length (ths0 ++ e)) (S (length (ths0 ++ e))) [length (ths0 ++ e)]) by (apply fresh_seq_one; lia).
       fs_app H1 Hf.
 Qed.
 
+(* a literal all of whose bodies and contracts mention statically named fields of the literal only *)
+Definition fdef_closed (scope : list N) (d : fdef) : Prop :=
+  (forall t, fbody d = Some t -> incl (vars t) scope) /\
+  (forall kc, In kc (fctrs d) -> incl (vars (snd kc)) scope).
+
+Definition lit_closed (l : literal) : Prop := forall k d, In (k, d) l -> fdef_closed (lit_scope l) d.
+
 Lemma alloc_fld_ok : forall c names ths0 e d ths' f',
-  c_unknown c = false -> (forall t x, In x (c_an c t) <-> In x (vars t)) ->
+  faithful c -> (u = true -> fdef_closed names d) ->
   alloc_fld c names (ths0 ++ e) d = (ths', f') ->
   exists e', ths' = (ths0 ++ e) ++ e' /\
              out_ok (length ths0) names ths' (lit_tgt names d) f' /\
              fresh_seq (length ths0) (length (ths0 ++ e)) (length ths') (ftids f').
 Proof.
-  intros c names ths0 e d ths' f' Hu Han Ha. unfold alloc_fld, field_deps in Ha. rewrite Hu in Ha.
-  set (deps := filter (fun x => mem x names)
-                 (flat_map (fun kc => c_an c (snd kc)) (fctrs d) ++ match fbody d with Some t => c_an c t | None => [] end)) in *.
-  assert (Hinc : incl deps names).
-  { intros x Hx. unfold deps in Hx. apply filter_In in Hx. apply mem_In. tauto. }
-  assert (Hval : forall t x, fbody d = Some t -> In x (vars t) -> mem x deps = mem x names).
-  { intros t x Hb Hx. unfold deps. rewrite mem_filter. rewrite Hb.
-    assert (Hm : mem x (flat_map (fun kc => c_an c (snd kc)) (fctrs d) ++ c_an c t) = true).
-    { apply mem_In. apply in_or_app. right. apply Han. exact Hx. }
-    rewrite Hm. reflexivity. }
-  assert (Hctr : forall kc x, In kc (fctrs d) -> In x (vars (snd kc)) -> mem x deps = mem x names).
-  { intros kc x Hkc Hx. unfold deps. rewrite mem_filter.
-    assert (Hm : mem x (flat_map (fun kc => c_an c (snd kc)) (fctrs d) ++ match fbody d with Some t => c_an c t | None => [] end) = true).
-    { apply mem_In. apply in_or_app. left. apply in_flat_map. exists kc. split; [exact Hkc | apply Han; exact Hx]. }
-    rewrite Hm. reflexivity. }
+  intros c names ths0 e d ths' f' (Hu & _ & _ & _ & Han) Hcl Ha. unfold alloc_fld in Ha.
+  set (dop := field_deps c names d) in *.
+  assert (Hleaf : (forall t, fbody d = Some t -> leaf_ok names dop t) /\
+                  (forall kc, In kc (fctrs d) -> leaf_ok names dop (snd kc))).
+  { unfold dop, field_deps. rewrite Hu. destruct u eqn:Eu; cbn [leaf_ok].
+    - destruct (Hcl eq_refl) as [Hb Hc]. split.
+      + intros t Hbt. split; [exact Eu | apply Hb; exact Hbt].
+      + intros kc Hkc. split; [exact Eu | apply Hc; exact Hkc].
+    - specialize (Han eq_refl).
+      set (deps := filter (fun x => mem x names)
+                     (flat_map (fun kc => c_an c (snd kc)) (fctrs d) ++ match fbody d with Some t => c_an c t | None => [] end)).
+      assert (Hinc : incl deps names).
+      { intros x Hx. unfold deps in Hx. apply filter_In in Hx. apply mem_In. tauto. }
+      split.
+      + intros t Hb. split; [exact Eu|]. split; [exact Hinc|]. intros x Hx. unfold deps. rewrite mem_filter, Hb.
+        assert (Hm : mem x (flat_map (fun kc => c_an c (snd kc)) (fctrs d) ++ c_an c t) = true).
+        { apply mem_In. apply in_or_app. right. apply Han. exact Hx. }
+        rewrite Hm. reflexivity.
+      + intros kc Hkc. split; [exact Eu|]. split; [exact Hinc|]. intros x Hx. unfold deps. rewrite mem_filter.
+        assert (Hm : mem x (flat_map (fun kc => c_an c (snd kc)) (fctrs d) ++ match fbody d with Some t => c_an c t | None => [] end) = true).
+        { apply mem_In. apply in_or_app. left. apply in_flat_map. exists kc. split; [exact Hkc | apply Han; exact Hx]. }
+        rewrite Hm. reflexivity. }
+  destruct Hleaf as [Hval Hctr].
   destruct (fbody d) as [t|] eqn:Eb.
-  - destruct (alloc_ctrs (Some deps) ((ths0 ++ e) ++ [lit_thunk (Some deps) t]) (fctrs d)) as [ths2 cs] eqn:E2.
+  - destruct (alloc_ctrs dop ((ths0 ++ e) ++ [lit_thunk dop t]) (fctrs d)) as [ths2 cs] eqn:E2.
     inversion Ha; subst ths' f'. clear Ha. rewrite <- app_assoc in E2.
-    destruct (alloc_ctrs_ok (length ths0) names deps _ _ _ _ _ eq_refl Hinc Hctr E2) as (e2 & -> & Hc & Hf).
-    exists ([lit_thunk (Some deps) t] ++ e2). split; [rewrite !app_assoc; reflexivity|]. split.
+    destruct (alloc_ctrs_ok (length ths0) names dop _ _ _ _ _ eq_refl Hctr E2) as (e2 & -> & Hc & Hf).
+    exists ([lit_thunk dop t] ++ e2). split; [rewrite !app_assoc; reflexivity|]. split.
     + split; [reflexivity|]. cbn [ival ictrs lit_tgt sval sctrs]. rewrite Eb. cbn [option_map]. split; [|exact Hc].
-      cbn [val_ok]. exists (lit_thunk (Some deps) t). split.
+      cbn [val_ok]. exists (lit_thunk dop t). split.
       * rewrite <- !app_assoc. rewrite (app_assoc ths0 e). rewrite nth_error_app2 by lia. rewrite Nat.sub_diag. reflexivity.
       * assert (Hlt : length ths0 <= length (ths0 ++ e)) by (rewrite app_length; lia).
-        destruct (mk_thunk_leaf (length ths0) names (length (ths0 ++ e)) t deps Hlt Hinc (fun x Hx => Hval t x eq_refl Hx)) as [Hp Hs].
+        destruct (mk_thunk_leaf (length ths0) names (length (ths0 ++ e)) t dop Hlt (Hval t eq_refl)) as [Hp Hs].
         unfold lit_thunk. destruct t as [z|x|a b|a b|a b t0 e0]; try (split; [exact Hp | exact Hs]).
-        split; [exact I|]. cbn [abs_thunk abs_body]. constructor. intros x [].
+        split; [split; [exact I | intros _ x []]|]. cbn [abs_thunk abs_body]. constructor. intros x [].
     + unfold ftids. cbn [ival ictrs].
       assert (H1 : fresh_seq (length ths0) (length (ths0 ++ e)) (S (length (ths0 ++ e))) [length (ths0 ++ e)])
         by (apply fresh_seq_one; lia).
       fs_app H1 Hf.
-  - destruct (alloc_ctrs (Some deps) (ths0 ++ e) (fctrs d)) as [ths2 cs] eqn:E2.
+  - destruct (alloc_ctrs dop (ths0 ++ e) (fctrs d)) as [ths2 cs] eqn:E2.
     inversion Ha; subst ths' f'. clear Ha.
-    destruct (alloc_ctrs_ok (length ths0) names deps _ _ _ _ _ eq_refl Hinc Hctr E2) as (e2 & -> & Hc & Hf).
+    destruct (alloc_ctrs_ok (length ths0) names dop _ _ _ _ _ eq_refl Hctr E2) as (e2 & -> & Hc & Hf).
     exists e2. split; [reflexivity|]. split.
     + split; [reflexivity|]. cbn [ival ictrs lit_tgt sval sctrs]. rewrite Eb. cbn [option_map]. split; [exact I | exact Hc].
     + unfold ftids. cbn [ival ictrs app]. exact Hf.
@@ -1125,8 +1281,11 @@ Qed.
 Lemma fld_ok_mono : forall ths rid keys keys' f, incl keys keys' -> fld_ok ths rid keys f -> fld_ok ths rid keys' f.
 Proof.
   intros ths rid keys keys' f Hinc H tid Ht. destruct (H tid Ht) as (th & Hth & Htok). exists th. split; [exact Hth|].
-  destruct th as [b|o [d|] [c|]]; cbn [thunk_ok] in *; try contradiction; [exact Htok|].
-  destruct Htok as (Hc & Hwf & Hd). repeat split; try assumption. eapply incl_tran; eassumption.
+  destruct th as [b|o [d|] [c|]]; cbn [MechInv.thunk_ok] in *; try contradiction; [exact Htok| |].
+  - destruct Htok as (Hu & Hc & Hwf & Hd). repeat split; try assumption. eapply incl_tran; eassumption.
+  - destruct Htok as (Hu & Hc & Hwf & Hcl). repeat split; try assumption.
+    + eapply wf_body_mono; eassumption.
+    + eapply closed_in_mono; eassumption.
 Qed.
 
 (* with the proposed patch the insertion of the dynamically named fields adds no indirection *)
@@ -1145,19 +1304,19 @@ Proof.
 Qed.
 
 Theorem eval_literal_ok : forall c st l,
-  faithful c -> NoDup (lit_names l) ->
+  faithful c -> NoDup (lit_names l) -> (u = true -> lit_closed l) ->
   exists st', eval_literal c st l = Some (st', length (recs st)) /\
               extends st st' /\ coherent st' (length (recs st)) /\
               srec_sim (abs st' (length (recs st))) (sden_lit l).
 Proof.
-  intros c st l (Hu & _ & Hpm & Hw & Han) Hnd. unfold eval_literal. rewrite Hpm.
+  intros c st l Hc Hnd Hcl. pose proof Hc as (Hu & _ & Hpm & Hw & Han). unfold eval_literal. rewrite Hpm.
   set (ths0 := thunks st). set (names := lit_scope l).
   rewrite alloc_lit_thread.
   destruct (thread fdef (alloc_fld c names) ths0 l) as [ths3 r] eqn:E1.
   rewrite <- (app_nil_r ths0) in E1.
-  destruct (thread_ok fdef (alloc_fld c names) (lit_tgt names) ths0 names (fun _ => True)
-              (fun e x ths' f' _ Hs => alloc_fld_ok c names ths0 e x ths' f' Hu Han Hs)
-              l [] ths3 r (fun _ _ _ => I) E1) as (e1 & -> & HF & Hfr).
+  destruct (thread_ok fdef (alloc_fld c names) (lit_tgt names) ths0 names (fun d => u = true -> fdef_closed names d)
+              (fun e x ths' f' HP Hs => alloc_fld_ok c names ths0 e x ths' f' Hc HP Hs)
+              l [] ths3 r (fun k d Hin Hu' => Hcl Hu' k d Hin) E1) as (e1 & -> & HF & Hfr).
   rewrite app_nil_r in *.
   set (Q := fun (d : fdef) (f' : ifld) => out_ok (length ths0) names (ths0 ++ e1) (lit_tgt names d) f').
   assert (Hk : ikeys r = lit_names l) by (apply (Forall2_keys fdef Q _ _ HF)).
@@ -1177,8 +1336,13 @@ Proof.
     eapply fld_ok_mono; [exact Hsc|]. exact (proj2 (out_ok_patched _ _ _ _ _ _ _ _ _ Hnth4 Hin Ho)).
   - intros k. unfold abs. cbn [recs thunks]. rewrite nth_error_app2 by lia. rewrite Nat.sub_diag. cbn [nth_error].
     rewrite slookup_abs_rec, slookup_sden_lit. fold names.
-    pose proof (Forall2_lookup fdef Q _ _ HF k) as Hl. destruct (alookup k l) as [d|]; cbn [option_map].
+    pose proof (Forall2_lookup fdef Q _ _ HF k) as Hl. destruct (alookup k l) as [d|] eqn:Eal; cbn [option_map].
     + destruct Hl as (f' & Hf' & Ho). rewrite Hf'. cbn [option_map opt_sim].
-      exact (proj1 (out_ok_patched _ _ _ _ _ _ _ _ _ Hnth4 (ilookup_In _ _ _ Hf') Ho)).
+      destruct (out_ok_patched _ _ _ _ _ _ _ _ _ Hnth4 (ilookup_In _ _ _ Hf') Ho) as [Hsim Hfok].
+      eapply sfld_sim_trans; [|exact Hsim].
+      (* the scope of the literal vs all the names of the record: the same for thunks that are closed *)
+      apply abs_fld_scope_sim with (rid := length (recs st)); [exact Hsc | exact Hfok].
     + rewrite Hl. exact I.
 Qed.
+
+End Mode.
